@@ -145,15 +145,20 @@ def check_input_values(ctx, ir, declared, reported, witness, where):
         check_default(ctx, ir, a, r.get("defaultValue"), witness, "%s.%s" % (where, a.name))
 
 
-def cut(model, reported):
-    """The introspection query only nests ofType 7 levels deep; beyond that the answer has no key."""
-    if isinstance(reported, dict) and "ofType" not in reported and isinstance(model, dict):
+# how many ofType levels the query in use selects below a type reference (set by the caller):
+# the standard query's TypeRef fragment goes 7 levels deep, the focused query 3
+OFTYPE_LEVELS = [7]
+
+
+def cut(model, reported, level=0):
+    """Below the deepest level the query selects the answer has no ofType key; anywhere above it does."""
+    if isinstance(reported, dict) and "ofType" not in reported and isinstance(model, dict) and level >= OFTYPE_LEVELS[0]:
         m = dict(model)
         m.pop("ofType", None)
         return m
     if isinstance(model, dict) and isinstance(reported, dict) and model.get("ofType") is not None:
         m = dict(model)
-        m["ofType"] = cut(model["ofType"], reported.get("ofType"))
+        m["ofType"] = cut(model["ofType"], reported.get("ofType"), level + 1)
         return m
     return model
 
@@ -377,7 +382,11 @@ def run(ctx):
                 if res.data.get("__type") is None:
                     ctx.violation("type-lookup:null", witness, st.name)
                     continue
-                check_type(ctx, ir, st, res.data["__type"], flag, witness)
+                OFTYPE_LEVELS[0] = 3
+                try:
+                    check_type(ctx, ir, st, res.data["__type"], flag, witness)
+                finally:
+                    OFTYPE_LEVELS[0] = 7
                 if baseline is None:
                     baseline = res.data.get(ordinary)
                 elif res.data.get(ordinary) != baseline:
